@@ -11,12 +11,12 @@ EXPLANATION = ("For every module returned by list_available_algorithms() the dec
                "the allowed values, defaults elsewhere, errors for unknown names / invalid values. Discrete exploration.")
 ASSUMPTIONS = ["values come from per-type representative pools (no symbolic strings)",
                "an 'error' is ValueError/TypeError from the API and SystemExit or an exception from the CLI helper"]
-BOUNDS = {"quick": "14 algorithm modules, subsets of <= 2 parameters, 7 value kinds, API dict form and CLI 'name:value' form",
+BOUNDS = {"quick": "14 algorithm modules, subsets of <= 2 parameters, 9 value kinds (incl. an explicit zero), API dict form and CLI 'name:value' form",
           "thorough": "same (exhausted in quick)"}
 OUTSIDE = "arbitrary strings, more than 2 parameters at once"
 CAP_S = {"quick": 600, "thorough": 1800}
 
-KINDS = ["valid", "valid_as_str", "other_allowed", "invalid_value", "wrong_type", "garbage_str", "default_as_str"]
+KINDS = ["valid", "valid_as_str", "other_allowed", "invalid_value", "wrong_type", "garbage_str", "default_as_str", "zero", "zero_as_str"]
 
 
 def jobs(tier):
@@ -42,6 +42,11 @@ def _candidate(pdef, kind):
         if kind == "wrong_type":
             return 5, ("error",)
         return "gar bage", (("error",) if allowed else ("ok", "gar bage"))
+    if t in ("int", "float") and kind in ("zero", "zero_as_str"):
+        z = 0 if t == "int" else 0.0
+        return (z if kind == "zero" else "0"), ("ok", z)
+    if t == "str" and kind in ("zero", "zero_as_str"):
+        kind = "valid"
     if t == "int":
         if kind == "valid":
             return 7, ("ok", 7)
